@@ -354,7 +354,14 @@ def step_fk(arm, st_, tol, ctx, k, op):
     out = A.outside_limits(m, th)
     thc = A.clamp(m, th)
     tol.set_step(thc)
-    T = as_T(sut(arm.FK, th.copy()), "step %d FK" % k)
+    # every FK of one history is handed the SAME array object, rewritten in place between calls (a jogging loop over
+    # one buffer): FK is about the values in the array at the time of the call
+    buf = getattr(st_, "fk_buf", None)
+    if buf is None or buf.shape != th.shape:
+        buf = st_.fk_buf = np.array(th, dtype=float, copy=True)
+    else:
+        buf[:] = th
+    T = as_T(sut(arm.FK, buf), "step %d FK" % k)
     st_.th = thc
     match_tool(st_, T, tol, "step %d value returned by FK(theta%s)" % (k, ", outside the limits" if out else ""))
     observe(arm, st_, tol, ctx, k)
